@@ -50,7 +50,7 @@ def run_job(kind, key):
             r['witness'] = dict(function=c.name)
         return dict(job=key, records=recs)
     if kind == 'lemmas':
-        return dict(job=key, records=rd.reader_lemmas(I, PROP))
+        return dict(job=key, records=rd.reader_lemmas(I, PROP) + pr.tree_view_obligations(I, PROP) + pr.view_lemmas(PROP))
     raise CheckerError(kind)
 
 
@@ -66,7 +66,7 @@ def main(tier='quick', seed=0):
             errors.append(f"{r['error']} (job {r['job']})")
     pr.replay_views(records)
     assumptions = [
-        'deductive part: AUTO printer and reader against the token-level specification toks(t) over the tree view (Leaf | Un | Bin with opaque node tags; the view is checked against tree.py in C07); '
+        'deductive part: AUTO printer and reader against the token-level specification toks(t) over the tree view (Leaf | Un | Bin with opaque node tags; the view is checked against the real tree.py properties in this check as well); '
         'recursive calls replaced by contracts (structural induction; the induction principle is the meta-rule)',
         'ASSUMED abstraction of the reader cursor: next() / check() / peek() / line[index + k] act on blank-separated pieces (text of a piece = its characters; character k of the piece at the cursor, with an '
         'obligation that the piece is that long); justified by next-lemma (proved on the real body of next() with z3 / cvc5 strings) for fields that are non-empty and blank-free - the precondition of C08 '
